@@ -208,8 +208,12 @@ class Ed25519Key(PKey):
             # not even a decodable algorithm name: not a valid signature
             return False
 
+        # a key loaded from a private key file only holds the signing key
+        verifying_key = self._verifying_key
+        if verifying_key is None:
+            verifying_key = self._signing_key.verify_key
         try:
-            self._verifying_key.verify(data, msg.get_binary())
+            verifying_key.verify(data, msg.get_binary())
         except nacl.exceptions.CryptoError:
             # BadSignatureError, or nacl's ValueError for a signature that is
             # not exactly 64 bytes long
